@@ -1977,7 +1977,9 @@ def out_contract_eval(spec):
             else:
                 m = getattr(x.ufuncs, name)
                 okw = dict(kw)
-                if len(outs) == 2 and sd['kind'] == 'pow':
+                if len(outs) == 2 and sd['kind'] == 'pow' and spec.get('pow_form') == 'out':
+                    okw['out'] = tuple(outs)       # accepted since /repo commit 638a1b5
+                elif len(outs) == 2 and sd['kind'] == 'pow':
                     if outs[0] is not None:
                         okw['out1'] = outs[0]
                     if outs[1] is not None:
@@ -2038,6 +2040,10 @@ def out_contract_specs(rng, tier):
                 for pat in pats:
                     yield {'space': sd, 'iface': iface, 'op': [name, '__call__', None], 'second': second, 'outs': pat,
                            'x': [rng.choice([0.5, 1.25, 1.5, 2.0, 2.5, 3.0]) for _ in range(n)]}
+                    if iface == 'legacy' and sd['kind'] == 'pow' and pat[0] in (None, 'same') and pat[1] in (None, 'same'):
+                        yield {'space': sd, 'iface': iface, 'op': [name, '__call__', None], 'second': second,
+                               'outs': pat, 'pow_form': 'out',
+                               'x': [rng.choice([0.5, 1.25, 1.5, 2.0, 2.5, 3.0]) for _ in range(n)]}
 
 
 # combinations the current interfaces refuse (measured; a refusal anywhere else is a failure)
@@ -2071,6 +2077,8 @@ def out_contract_probes(rng, tier):
                 key = 'legacy-binary-out-tuple-returns-notimplemented'
         if spec['iface'] == 'legacy' and spec['space']['kind'] == 'pow' and len(spec['space']['shape']) > 2 \
                 and spec['op'][0] in TWO_OUT_UFUNCS and cat == 'rejected':
+            key = 'legacy-pspace-two-output-nested'
+        if spec['iface'] == 'legacy' and spec['space']['kind'] == 'pow' and spec.get('pow_form') == 'out' and not ok:
             key = 'legacy-pspace-two-output-nested'
         out.append(C.Probe(bool(ok), key if not ok else 'ok',
                            'out= contract (%s interface, %s space %s): %s%s with out kinds %s -- rejected or the passed '
